@@ -19,6 +19,14 @@ from . import engine as E
 from .common import GRAPH_MUTATORS
 
 
+class _Adj:
+    def __init__(self, g, how):
+        self.g, self.how = g, how
+
+    def __getitem__(self, n):
+        return getattr(self.g, self.how)(n)
+
+
 class MG(Native):
     """Checker-side model of networkx.MultiDiGraph restricted to the API the transformations use."""
 
@@ -91,6 +99,36 @@ class MG(Native):
             if u is n and v not in out:
                 out.append(v)
         return out
+
+    def edges(self, nbunch=None, keys=False, data=False):
+        es = [e for e in self._edges if nbunch is None or e[0] is nbunch]
+        return [(u, v, k) if keys else (u, v) for (u, v, k) in es]
+
+    def in_degree(self, n=None):
+        return len(self.in_edges(n))
+
+    def out_degree(self, n=None):
+        return len(self.out_edges(n))
+
+    def number_of_nodes(self):
+        return len(self._nodes)
+
+    def number_of_edges(self):
+        return len(self._edges)
+
+    def __contains__(self, n):
+        return n in self._nodes
+
+    def __len__(self):
+        return len(self._nodes)
+
+    @property
+    def pred(self):
+        return _Adj(self, "predecessors")
+
+    @property
+    def succ(self):
+        return _Adj(self, "successors")
 
     def copy(self):
         g = MG(self._i)
